@@ -39,7 +39,7 @@ NameIdx(n) == CASE n = "x" -> 1 [] n = "y" -> 2 [] n = "z" -> 3 [] n = "a" -> 4 
 SeqKey(ps) == LET RECURSIVE K(_)
                   K(s) == IF Len(s) = 0 THEN 0 ELSE NameIdx(Head(s)) + 7 * K(Tail(s))
               IN K(ps)
-InShard(pa, pb, pc, opt) == (SeqKey(pa) + 3 * SeqKey(pb) + 5 * SeqKey(pc) + Len(opt)) % NShards = Shard
+InShard(pa, pb, pc, opt) == (SeqKey(pa) + 59 * SeqKey(pb) + 3481 * SeqKey(pc) + 7 * Len(opt)) % NShards = Shard
 
 Tuples == {t \in U!PSeqs(U!Roots) \X (UNION {U!PSeqs(U!AvB(o)) : o \in U!Opts})
                  \X (IF N = 2 THEN {<<>>} ELSE UNION {U!PSeqs(U!AvC(o)) : o \in U!Opts}) \X MyOpts : TRUE}
